@@ -381,6 +381,19 @@ func dur(r *core.Rand, loUS, hiUS int) time.Duration {
 	return time.Duration(r.Range(loUS, hiUS)) * time.Microsecond
 }
 
+// timeoutDur: mostly 50..2000 us; one in six is tiny (1 ns .. 49 us, also below one
+// microsecond: a timeout that is positive but truncates to zero in a coarser unit is
+// still a timeout, not "no limit")
+func timeoutDur(r *core.Rand) time.Duration {
+	if r.Chance(1, 6) {
+		if r.Bool() {
+			return time.Duration(r.Range(1, 999)) * time.Nanosecond
+		}
+		return time.Duration(r.Range(1, 49)) * time.Microsecond
+	}
+	return dur(r, 50, 2000)
+}
+
 // c19send: senders use SendTimeout / SendContext; one plain receiver peer.
 func c19send(c *core.Ctx, r *core.Rand) {
 	capa := r.Intn(4)
@@ -388,7 +401,7 @@ func c19send(c *core.Ctx, r *core.Rand) {
 	ns := r.Range(1, 4)
 	per := r.Range(1, 12)
 	useCtx := r.Bool()
-	timeout := dur(r, 50, 2000)
+	timeout := timeoutDur(r)
 	type res struct {
 		trueV, falseV []int
 	}
@@ -506,7 +519,7 @@ func c19recv(c *core.Ctx, r *core.Rand) {
 	nr := r.Range(1, 4)
 	per := r.Range(1, 12)
 	useCtx := r.Bool()
-	timeout := dur(r, 50, 2000)
+	timeout := timeoutDur(r)
 	closeAtEnd := r.Chance(1, 3)
 	produce := r.Range(0, nr*per+2)
 	pdelay := r.Intn(3)
